@@ -57,6 +57,8 @@ pub struct Profile {
     pub exact_edge_pct: u64,
     /// histories that start with a liquidation attempted while the spot price sits exactly on the band limit
     pub exact_edge_liq_pct: u64,
+    /// share of fee-pool re-pointings that name an address which is not in normal form
+    pub malformed_addr_pct: u64,
 }
 
 impl Default for Profile {
@@ -87,6 +89,7 @@ impl Default for Profile {
             stray_funds_pct: 0,
             exact_edge_pct: 2,
             exact_edge_liq_pct: 1,
+            malformed_addr_pct: 20,
         }
     }
 }
@@ -719,7 +722,12 @@ impl Gen {
             13 if self.rng.chance(1, 2) => {
                 // re-point the fee pool (contract <-> plain account): fees must follow the configuration
                 let cur = h.last.eng.fee_pool.clone();
-                let next = if cur == h.w.fee_pool.to_string() { "feepool2".to_string() } else { h.w.fee_pool.to_string() };
+                let mut next = if cur == h.w.fee_pool.to_string() { "feepool2".to_string() } else { h.w.fee_pool.to_string() };
+                // one time in five the address is not in normal form (upper case, too short, too long): the
+                // engine validates addresses and must refuse the update
+                if self.rng.chance(self.prof.malformed_addr_pct, 100) {
+                    next = self.rng.pick(&["FEE_COLLECTOR", "FeePool2", "fp", "a_fee_pool_address_that_is_much_longer_than_any_address_the_chain_would_accept"]).to_string();
+                }
                 let o = h.last.eng.owner.clone();
                 h.step(
                     Op::Engine {
